@@ -118,3 +118,110 @@ def _suolson():
     m = trace_solver('SuOlson', 'exactpack.solvers.suolson.suolson:SuOlson', pvars=('z',), tvar='t',
                      extra_modules=[SUO], extra_shims=dict(usolution=usolution, vsolution=vsolution))
     return with_funs(m, {'Usol': 3, 'Vsol': 4})
+
+
+# =====================================================================================
+# C19  2-D steady supersonic Riemann problem
+#      (exactpack/solvers/riemann2D_2section_steadystate/{riemann2D_…,ep_riemann2D_…}.py)
+# =====================================================================================
+R2M = 'exactpack.solvers.riemann2D_2section_steadystate.riemann2D_2section_steadystate'
+R2E = 'exactpack.solvers.riemann2D_2section_steadystate.ep_riemann2D_2section_steadystate'
+R2_STATE = ('p0', 'r0', 'M0', 'theta0', 'g')
+R2_FUNCS = {'R2Comp': ('compression_states', ['deflection', 'rs', 'Ms']),
+            'R2Exp': ('expansion_states', ['deflection', 'rs', 'Ms']),
+            'R2PM': ('PrandtlMeyer_function', ['nu'])}
+
+
+def _r2_prob():
+    M = importlib.import_module(R2M)
+    return M, object.__new__(M.SetupRiemannProblem)
+
+
+def _r2_func(name):
+    fn, outs = R2_FUNCS[name]
+
+    @target(name, ['rad', 'riemann2d'])
+    def _b():
+        def run():
+            M, prob = _r2_prob()
+            if fn == 'PrandtlMeyer_function':
+                return prob.PrandtlMeyer_function(S('Ms'), S('g'))
+            return getattr(prob, fn)(S('ps'), [S(k) for k in R2_STATE])
+        return trace_func(name, run, [], outs, modules=[R2M], source='%s:SetupRiemannProblem.%s' % (R2M, fn))
+    return _b
+
+
+for _n in R2_FUNCS:
+    _r2_func(_n)
+
+R2_BOTTOM = ('pB', 'rB', 'MB', 'thetaB', 'gB')
+R2_TOP = ('pT', 'rT', 'MT', 'thetaT', 'gT')
+R2_MORPH = {'R2dSCS': 'S-C-S', 'R2dSCR': 'S-C-R', 'R2dRCS': 'R-C-S', 'R2dRCR': 'R-C-R'}
+
+
+def _r2_stub(morph):
+    """SetupRiemannProblem with the numerical solves replaced by free symbols (ATOMS): the
+    pressure-deflection intersection of `find_overlap` (p_star, cd_angle and the pattern string `morph`) and
+    the shock-angle solves (beta_B, beta_T).  Everything else is the real code: set_initial_state_values,
+    set_starstate_values (with the real compression_states / expansion_states), assign_lineout_vals."""
+    M = importlib.import_module(R2M)
+
+    class Prob(M.SetupRiemannProblem):
+        def __init__(self, bottom_state, top_state):
+            self.bottom_state = bottom_state
+            self.top_state = top_state
+            self.set_initial_state_values()
+            self.pressure_solution = S('p_star')
+            self.deflection_angle_solution = S('cd_angle')
+            self.morphology = morph
+            self.bottom_compression_arrays = self.bottom_expansion_arrays = [None, None, None, None]
+            self.top_compression_arrays = self.top_expansion_arrays = [None, None, None, None]
+            self.set_starstate_values()
+
+        def determine_shock_angle(self, state):
+            return S('beta_B') if state is self.bottom_state else S('beta_T')
+    return Prob
+
+
+def _r2_solver(name):
+    """the public solver `IGEOS_Solver._run` at one symbolic point (x, y) for one wave pattern;
+    additional ATOM: the pressure solve inside a fan (p_fanB, p_fanT)."""
+    morph = R2_MORPH[name]
+
+    @target(name, ['rad', 'riemann2d'])
+    def _b():
+        class Mod(object):
+            SetupRiemannProblem = _r2_stub(morph)
+
+        def fsolve(f, x0, *a, **k):
+            return [S('p_fanB') if 'pB' in symbols(x0) else S('p_fanT')]
+        return trace_solver(name, R2E + ':IGEOS_Solver', pvars=('x', 'y'), tvar=None, concrete=dict(t=0.25),
+                            structured=dict(bottom_state=lambda: [S(k) for k in R2_BOTTOM],
+                                            top_state=lambda: [S(k) for k in R2_TOP]),
+                            extra_modules=[R2M],
+                            extra_shims=dict(riemann2D_2section_steadystate=Mod, fsolve=fsolve))
+    return _b
+
+
+R2_STAR = {'R2StarSCS': 'S-C-S', 'R2StarSCR': 'S-C-R', 'R2StarRCS': 'R-C-S', 'R2StarRCR': 'R-C-R'}
+R2_STAR_OUTS = ['pBs', 'rBs', 'MBs', 'uBs', 'vBs', 'pTs', 'rTs', 'MTs', 'uTs', 'vTs']
+
+
+def _r2_star(name):
+    """the two star states `set_starstate_values` assembles on either side of the slip line"""
+    morph = R2_STAR[name]
+
+    @target(name, ['rad', 'riemann2d'])
+    def _b():
+        def run():
+            prob = _r2_stub(morph)([S(k) for k in R2_BOTTOM], [S(k) for k in R2_TOP])
+            return tuple(prob.bottom_star_vals) + tuple(prob.top_star_vals)
+        return trace_func(name, run, [], R2_STAR_OUTS, modules=[R2M],
+                          source='%s:SetupRiemannProblem.set_starstate_values [%s]' % (R2M, morph))
+    return _b
+
+
+for _n in R2_MORPH:
+    _r2_solver(_n)
+for _n in R2_STAR:
+    _r2_star(_n)
